@@ -117,6 +117,8 @@ fn run_case(seed: u64, idx: u64) -> CaseOut {
     }
     let finish_msg = text(&mut rng, "F");
     let use_finish = rng.chance(1, 3);
+    // the final message arrives through the finishing or the abandoning flavour of the call
+    let abandon_variant = rng.chance(1, 2);
     let res = catch_unwind(AssertUnwindSafe(|| -> Result<(), Verdict> {
         for o in &order {
             match o {
@@ -148,7 +150,7 @@ fn run_case(seed: u64, idx: u64) -> CaseOut {
             tmpl = 0;
         }
         if use_finish {
-            pb = pb.clone().with_finish(ProgressFinish::WithMessage(finish_msg.clone().into()));
+            pb = pb.clone().with_finish(if abandon_variant { ProgressFinish::AbandonWithMessage(finish_msg.clone().into()) } else { ProgressFinish::WithMessage(finish_msg.clone().into()) });
         }
         // ---- operations while the bar has no terminal: only the getters can be looked at -------------------
         if hidden_start {
@@ -265,10 +267,15 @@ fn run_case(seed: u64, idx: u64) -> CaseOut {
             check(&keep, tmpl, &msg, &prefix, tw, &history, "finish_using_style")?;
         } else {
             let fm = text(&mut rng, "f");
-            history.push(format!("finish_with_message({fm:?})"));
-            pb.finish_with_message(fm.clone());
+            if abandon_variant {
+                history.push(format!("abandon_with_message({fm:?})"));
+                pb.abandon_with_message(fm.clone());
+            } else {
+                history.push(format!("finish_with_message({fm:?})"));
+                pb.finish_with_message(fm.clone());
+            }
             msg = fm;
-            check(&pb, tmpl, &msg, &prefix, tw, &history, "finish_with_message")?;
+            check(&pb, tmpl, &msg, &prefix, tw, &history, if abandon_variant { "abandon_with_message" } else { "finish_with_message" })?;
         }
         if spy.state().screen.tabs_seen > 0 {
             return Err(viol("tab-reached-terminal", vec!["raw-tab".into()], "the terminal emulator saw a TAB byte".into(), J::from(history.clone()), replay.clone()));
@@ -453,7 +460,7 @@ pub fn run(cfg: &RunCfg) -> PropResult {
     };
     PropResult {
         report,
-        rule: "each evaluation: with_tab_width / with_style / with_message / with_prefix applied in a random order at construction, then 1-6 of set_tab_width / set_style (fresh style, or the bar's own style() with a new template) / set_message / set_prefix and a finish_with_message or a drop-style finish with WithMessage; tab widths {0,1,2,8,13}; texts with 0-10 tabs (leading, trailing, consecutive); tabs in template literals and in custom-key output; standalone and inside a MultiProgress; bars that join a MultiProgress (and a quarter of the others) are configured with 0-3 further operations while they have no terminal; after every operation every write_str/write_line argument is scanned for TAB, the forced frame is compared with the model expansion and message()/prefix() with the expanded text; non-trivial = at least one text of the history contains a tab; concurrent lane: set_message/set_prefix/finish_with_message with a text whose Into<Cow<str>> conversion lets a second thread run set_tab_width inside the call, final texts and frame compared with the expansion at the new width".into(),
+        rule: "each evaluation: with_tab_width / with_style / with_message / with_prefix applied in a random order at construction, then 1-6 of set_tab_width / set_style (fresh style, or the bar's own style() with a new template) / set_message / set_prefix and a finish_with_message / abandon_with_message or a finish_using_style with WithMessage / AbandonWithMessage; tab widths {0,1,2,8,13}; texts with 0-10 tabs (leading, trailing, consecutive); tabs in template literals and in custom-key output; standalone and inside a MultiProgress; bars that join a MultiProgress (and a quarter of the others) are configured with 0-3 further operations while they have no terminal; after every operation every write_str/write_line argument is scanned for TAB, the forced frame is compared with the model expansion and message()/prefix() with the expanded text; non-trivial = at least one text of the history contains a tab; concurrent lane: set_message/set_prefix/finish_with_message with a text whose Into<Cow<str>> conversion lets a second thread run set_tab_width inside the call, final texts and frame compared with the expansion at the new width".into(),
         exhaustive: false,
     }
 }
